@@ -17,12 +17,14 @@ import (
 	"time"
 
 	"github.com/ethereum/go-ethereum/common"
+	"github.com/ethereum/go-ethereum/core/types"
 	"github.com/gauss-project/aurorafs/pkg/boson"
 	"github.com/gauss-project/aurorafs/pkg/crypto"
 	"github.com/gauss-project/aurorafs/pkg/logging"
 	"github.com/gauss-project/aurorafs/pkg/p2p"
 	chequePkg "github.com/gauss-project/aurorafs/pkg/settlement/traffic/cheque"
 	"github.com/gauss-project/aurorafs/pkg/statestore/mock"
+	"github.com/gauss-project/aurorafs/pkg/storage"
 	"github.com/gauss-project/aurorafs/pkg/subscribe"
 	"github.com/gauss-project/aurorafs/pkg/zzverif/mc"
 )
@@ -99,11 +101,16 @@ func c30Build(full bool) *c30World {
 	pay := []int64{5, 10, 20}
 	for _, is := range []*c30Actor{w.p, w.q} {
 		for _, v := range pay {
-			valid(is, v)
+			if full || is == w.p || v != 20 {
+				valid(is, v)
+			}
 		}
 		other := w.q
 		if is == w.q {
 			other = w.p
+		}
+		if !full && is == w.q {
+			continue // quick: the defective variants are enumerated for issuer P only
 		}
 		// properly signed by the issuer, but made out to somebody else
 		add(c30Cheque{desc: is.name + ":20-to-" + other.name, sc: c30Sign(is, other.addr, is.addr, 20), issuer: is.name, payout: 20, forSelf: false, signedOK: true, defect: "wrong-recipient"})
@@ -202,22 +209,82 @@ func (s *c30Store) ReceiveCheque(ctx context.Context, c *chequePkg.SignedCheque)
 	return amt, err
 }
 
+// c30Chain is the chain stub: the only source of on-chain values. cashedFrom[I] is
+// what this node has already cashed on chain from issuer I's cheques
+// (TransAmount(I, self)); told[I] is the value last handed to the node.
+type c30Chain struct {
+	mu         sync.Mutex
+	self       common.Address
+	cashedFrom map[common.Address]int64
+	told       map[common.Address]int64
+}
+
+func (c *c30Chain) TransferredAddress(common.Address) ([]common.Address, error) {
+	c.mu.Lock()
+	defer c.mu.Unlock()
+	var out []common.Address
+	for a, v := range c.cashedFrom {
+		if v > 0 {
+			out = append(out, a)
+		}
+	}
+	sort.Slice(out, func(i, j int) bool { return out[i].String() < out[j].String() })
+	return out, nil
+}
+func (c *c30Chain) RetrievedAddress(common.Address) ([]common.Address, error) { return nil, nil }
+func (c *c30Chain) BalanceOf(common.Address) (*big.Int, error)                { return big.NewInt(1000), nil }
+func (c *c30Chain) RetrievedTotal(common.Address) (*big.Int, error)           { return big.NewInt(0), nil }
+func (c *c30Chain) TransferredTotal(common.Address) (*big.Int, error)         { return big.NewInt(0), nil }
+func (c *c30Chain) TransAmount(beneficiary, recipient common.Address) (*big.Int, error) {
+	c.mu.Lock()
+	defer c.mu.Unlock()
+	if recipient == c.self {
+		c.told[beneficiary] = c.cashedFrom[beneficiary]
+		return big.NewInt(c.cashedFrom[beneficiary]), nil
+	}
+	return big.NewInt(0), nil
+}
+func (c *c30Chain) CashChequeBeneficiary(context.Context, boson.Address, common.Address, common.Address, *big.Int, []byte) (*types.Transaction, error) {
+	return nil, errors.New("not used")
+}
+
 type c30Sys struct {
 	w     *c30World
+	st    storage.StateStorer
+	chain *c30Chain
 	svc   *Service
 	store *c30Store
 	pub   *c30PubSub
 }
 
-func c30Fresh(x *mc.X, w *c30World) *c30Sys {
-	st := mock.NewStateStore()
-	ab := NewAddressBook(st)
-	x.NoErr(ab.PutBeneficiary(w.p.overlay, w.p.addr), "register P")
-	x.NoErr(ab.PutBeneficiary(w.q.overlay, w.q.addr), "register Q")
-	cs := &c30Store{ChequeStore: chequePkg.NewChequeStore(st, w.self.addr, chequePkg.RecoverCheque, c30ChainID)}
-	pub := &c30PubSub{ch: make(chan string, 64)}
-	svc := New(logging.New(io.Discard, 0), w.self.addr, st, nil, cs, nil, c30P2P{}, ab, w.self.signer, nil, c30ChainID, pub)
-	return &c30Sys{w: w, svc: svc, store: cs, pub: pub}
+// c30Fresh builds a node on an empty state store whose chain already shows
+// cashedP / cashedQ cashed from the two issuers (0,0 = a really new node; non-zero =
+// a node that lost or never had its state store), registers P and Q and runs Init.
+func c30Fresh(x *mc.X, w *c30World, cashedP, cashedQ int64) *c30Sys {
+	s := &c30Sys{w: w, st: mock.NewStateStore(), pub: &c30PubSub{ch: make(chan string, 64)}, store: &c30Store{}}
+	s.chain = &c30Chain{self: w.self.addr, cashedFrom: map[common.Address]int64{w.p.addr: cashedP, w.q.addr: cashedQ}, told: map[common.Address]int64{}}
+	s.start(x, true)
+	// the node has served both peers (cheques pay for served traffic); this is also what makes a
+	// peer's address known to trafficInit after a restart
+	for _, a := range []*c30Actor{w.p, w.q} {
+		x.NoErr(s.svc.PutTransferTraffic(a.overlay, big.NewInt(50)), "PutTransferTraffic")
+		s.pub.wait(x, 2)
+	}
+	return s
+}
+
+// start creates a Service on the (possibly already filled) state store and runs
+// Init, as the node does at start-up.
+func (s *c30Sys) start(x *mc.X, first bool) {
+	w := s.w
+	ab := NewAddressBook(s.st)
+	if first {
+		x.NoErr(ab.PutBeneficiary(w.p.overlay, w.p.addr), "register P")
+		x.NoErr(ab.PutBeneficiary(w.q.overlay, w.q.addr), "register Q")
+	}
+	s.store.ChequeStore = chequePkg.NewChequeStore(s.st, w.self.addr, chequePkg.RecoverCheque, c30ChainID)
+	s.svc = New(logging.New(io.Discard, 0), w.self.addr, s.st, s.chain, s.store, nil, c30P2P{}, ab, w.self.signer, nil, c30ChainID, s.pub)
+	x.NoErr(s.svc.Init(), "Service.Init")
 }
 
 func (s *c30Sys) close() {
@@ -281,7 +348,22 @@ func (s *c30Sys) dump(x *mc.X) string {
 		parts = append(parts, fmt.Sprintf("traffic[%s]=%s,%s,%s", name, c30Int(t.transferChequeTraffic), c30Int(t.transferTraffic), c30Int(t.transferChainTraffic)))
 	}
 	s.svc.trafficPeers.trafficLock.Unlock()
+	s.chain.mu.Lock()
+	for _, a := range []*c30Actor{s.w.p, s.w.q} {
+		parts = append(parts, fmt.Sprintf("chain[%s]=%d/told %d", a.name, s.chain.cashedFrom[a.addr], s.chain.told[a.addr]))
+	}
+	s.chain.mu.Unlock()
 	return strings.Join(parts, " ")
+}
+
+// credited reads the in-memory received-settlement counter of a peer's record (0 if there is none).
+func (s *c30Sys) credited(a *c30Actor) int64 {
+	s.svc.trafficPeers.trafficLock.Lock()
+	defer s.svc.trafficPeers.trafficLock.Unlock()
+	if t := s.svc.trafficPeers.trafficPeers[a.addr.String()]; t != nil {
+		return t.transferChequeTraffic.Int64()
+	}
+	return 0
 }
 
 // observe compares every credit record with the reference.
@@ -321,6 +403,9 @@ func (s *c30Sys) observe(x *mc.X, m *c30Model, when string) {
 			x.Check(lc.Beneficiary == a.addr, "service-last-cheque-of-other-issuer", "%s: Service.LastReceivedCheque(%s) names issuer %x", when, a.name, lc.Beneficiary)
 		}
 	}
+	// (3) the credited total per issuer as the service shows it. Weakest sound reading (see NOTES.md):
+	// it is at least the highest accepted cumulative payout H and at most max(H, C) where C is what the
+	// chain last said this node already cashed from that issuer; anything above is credited twice.
 	tcs, err := s.svc.TrafficCheques()
 	x.NoErr(err, "TrafficCheques")
 	seen := map[string]int64{}
@@ -333,29 +418,93 @@ func (s *c30Sys) observe(x *mc.X, m *c30Model, when string) {
 		}
 		seen[name] = tc.ReceivedSettlements.Int64()
 	}
+	var sumLo, sumHi, sumMem int64
 	for _, a := range []*c30Actor{w.p, w.q} {
-		x.Check(seen[a.name] == m.max[a.name], "credited-to-wrong-peer-record", "%s: peer %s's record shows received settlements %d, highest accepted payout of that issuer is %d", when, a.name, seen[a.name], m.max[a.name])
+		lo := m.max[a.name]
+		hi := lo
+		if c := s.chain.told[a.addr]; c > hi {
+			hi = c
+		}
+		sumLo, sumHi = sumLo+lo, sumHi+hi
+		mem := s.credited(a)
+		sumMem += mem
+		inRange := func(v int64) bool { return v >= lo && v <= hi }
+		key := "credited-to-wrong-peer-record"
+		if mem > hi && lo > 0 {
+			key = "credited-more-than-highest-accepted-payout"
+		}
+		x.Check(inRange(mem), key, "%s: peer %s's record shows received settlements %d; highest accepted payout of that issuer is %d, chain-cashed (as last told) %d", when, a.name, mem, lo, s.chain.told[a.addr])
+		if _, listed := seen[a.name]; listed {
+			x.Check(seen[a.name] == mem, "trafficcheques-differs-from-record", "%s: TrafficCheques shows %d for %s, record holds %d", when, seen[a.name], a.name, mem)
+		}
+		sent, err := s.svc.TotalSent(a.overlay)
+		x.NoErr(err, "TotalSent")
+		out, err := s.svc.TransferTraffic(a.overlay)
+		x.NoErr(err, "TransferTraffic")
+		x.Check(inRange(sent.Int64()-out.Int64()), key, "%s: TotalSent(%s)-TransferTraffic(%s) = %d-%d credits %d; highest accepted payout %d, chain-cashed %d", when, a.name, a.name, sent.Int64(), out.Int64(), sent.Int64()-out.Int64(), lo, s.chain.told[a.addr])
 	}
 	x.Check(seen["?"] == 0, "credited-to-wrong-peer-record", "%s: a record of an unknown peer shows received settlements", when)
+	for _, a := range []*c30Actor{w.u, w.x, w.self} {
+		x.Check(s.credited(a) == 0, "credited-to-wrong-peer-record", "%s: a record for %s shows received settlements %d", when, a.name, s.credited(a))
+	}
+	ti, err := s.svc.TrafficInfo()
+	x.NoErr(err, "TrafficInfo")
+	rt := ti.ReceivedTraffic.Int64()
+	x.Check(rt >= sumLo && rt <= sumHi, "credited-more-than-highest-accepted-payout", "%s: TrafficInfo.ReceivedTraffic=%d, highest accepted payouts add up to %d (with chain-cashed parts at most %d)", when, rt, sumLo, sumHi)
+	_ = sumMem
 }
+
+const c30QuickDepth = 4
 
 func TestVerifC30(t *testing.T) {
 	w := c30World0()
-	depth := mc.Pick(6, 8)
+	depth := mc.Pick(c30QuickDepth, 7)
 	senders := []string{"P", "Q", "U"}
+	// what the chain already shows as cashed from (P, Q) when the node starts on an empty store
+	initial := [][2]int64{{0, 0}, {7, 0}, {15, 7}}
+	extra := []string{"refresh", "restart", "we-cash(P)", "we-cash(Q)"}
 	var menu []string
 	for _, c := range w.cheques {
 		menu = append(menu, c.desc)
 	}
 	mc.Run(t, mc.Config{ID: "C30", Name: "C30-service", MaxDev: -1, Params: map[string]interface{}{
-		"depth": depth, "senders": "P,Q registered; U unregistered", "cheques": menu}},
+		"depth": depth, "senders": "P,Q registered; U unregistered", "cheques": menu, "other_ops": extra,
+		"initial_chain_cashed_from_P_Q": initial}},
 		func(x *mc.X) {
-			s := c30Fresh(x, w)
-			defer s.close()
+			ini := initial[x.Choose(len(initial))]
+			s := c30Fresh(x, w, ini[0], ini[1])
+			defer func() { s.close() }()
+			x.Logf("start on an empty store; chain shows %d cashed from P, %d from Q", ini[0], ini[1])
 			m := &c30Model{max: map[string]int64{}}
 			accepted, refusedValidLooking := 0, 0
+			s.observe(x, m, "after start")
+			nrecv := len(senders) * len(w.cheques)
 			for step := 0; step < depth; step++ {
-				op := x.Choose(len(senders) * len(w.cheques))
+				op := x.Choose(nrecv + len(extra))
+				if op >= nrecv {
+					switch extra[op-nrecv] {
+					case "refresh":
+						x.NoErr(s.svc.trafficInit(), "trafficInit")
+					case "restart":
+						s.close()
+						s.start(x, false)
+					default: // this node cashes the last accepted cheque of P / Q: the chain amount follows
+						a := []*c30Actor{w.p, w.q}[op-nrecv-2]
+						s.chain.mu.Lock()
+						if m.max[a.name] > s.chain.cashedFrom[a.addr] {
+							s.chain.cashedFrom[a.addr] = m.max[a.name]
+							x.Tag("chain-cashed-amount-raised-by-history")
+						}
+						s.chain.mu.Unlock()
+					}
+					x.Logf("%s", extra[op-nrecv])
+					s.pub.idle(x)
+					s.observe(x, m, fmt.Sprintf("after step %d (%s)", step+1, extra[op-nrecv]))
+					if x.Seen(s.dump(x)+fmt.Sprintf(" | model %v nt=%v", m.max, accepted >= 1 && (refusedValidLooking >= 1 || accepted >= 2)), depth-step-1) {
+						return
+					}
+					continue
+				}
 				sender := senders[op%len(senders)]
 				c := &w.cheques[op/len(senders)]
 				var from boson.Address
@@ -374,6 +523,9 @@ func TestVerifC30(t *testing.T) {
 					if why != "" {
 						x.Logf("records after the call: %s", s.dump(x))
 						x.Fail("accepted-"+why, "step %d: cheque %s arriving from %s was accepted (highest accepted payout of %s so far: %d)", step+1, c.desc, sender, c.issuer, m.max[c.issuer])
+					}
+					if told := s.chain.told[c.sc.Beneficiary]; told > m.max[c.issuer] {
+						x.Tag("accepted-while-chain-cashed-exceeds-stored-last-cheque")
 					}
 					m.max[c.issuer] = c.payout
 					accepted++
